@@ -37,7 +37,7 @@ ASSUMPTIONS = [
   'exceptions are injected at callback boundaries of module bodies, not between two bytecodes of flax itself',
   'all arithmetic is small integers in float32, so byte comparison is exact however XLA fuses',
 ]
-PROBES = ['fault_in_setup_or_body', 'write_outside_filter_raises', 'write_inside_filter_ok', 'repeat_checked', 'memo_hit_after_fault', 'frozen_returns', 'bind_unbind', 'core_api', 'observe_capture', 'observe_strip_sow', 'observe_no_perturb_col', 'collections_rule_checked', 'inner_module_attr', 'gc_event', 'context_intercept', 'context_named_call_on', 'context_named_call_off', 'context_tabulate', 'concurrent_interleaved']
+PROBES = ['fault_in_setup_or_body', 'write_outside_filter_raises', 'write_inside_filter_ok', 'repeat_checked', 'memo_hit_after_fault', 'frozen_returns', 'bind_unbind', 'core_api', 'observe_capture', 'observe_strip_sow', 'observe_no_perturb_col', 'collections_rule_checked', 'inner_module_attr', 'gc_event', 'context_intercept', 'context_named_call_on', 'context_named_call_off', 'context_tabulate', 'concurrent_interleaved', 'inner_from_bound_model', 'inner_below_unbound_container']
 
 errors = None
 
@@ -78,10 +78,14 @@ def generate(rs, tier):
   for _ in range(nprog):
     sp = P.gen_module(g)
     inner = None
-    if g.random() < 0.2:
+    inner_from = None
+    if g.random() < 0.28:
       inner = P.gen_module(g, depth=2, allow=('param', 'var'))
       sp['body'].insert(g.randrange(len(sp['body']) + 1), dict(i='inner'))
-    progs.append(dict(spec=sp, inner=inner, batch=g.choice([1, 2, 3])))
+      # the module handed in as an attribute may come out of an earlier model that is still bound (and alive):
+      # directly, or one level below an unbound container module
+      inner_from = g.choice([None, None, 'bound', 'bound_nested', 'nested'])
+    progs.append(dict(spec=sp, inner=inner, inner_from=inner_from, batch=g.choice([1, 2, 3])))
   ops = []
   for i in range(nprog):
     ops.append(dict(op='init', prog=i, seed=g.randrange(5), batch=g.choice([1, 2, 3]), fill=g.randrange(3), with_output=g.random() < 0.5))
@@ -205,10 +209,27 @@ class LWorld:
     k = plan['knobs']
     self.progs = k['progs']
     self.mods = []
+    self.keep = []
     for p in self.progs:
       inner = P.make(p['inner'], name='inner_mod') if p['inner'] else None
       if inner is not None:
         res.probe('inner_module_attr')
+        how = p.get('inner_from')
+        if how in ('bound', 'bound_nested'):
+          hspec = dict(style='setup', name=None, body=[dict(i='child', mod=p['inner'], times=1)])
+          holder = P.make(hspec)
+          P.CTL.reset()
+          hv = holder.init(self.rngs([hspec], 0, True), P.make_input(1, 1))
+          bound = holder.bind(hv, mutable=True)
+          inner = bound.kids[0]
+          if inner.scope is None:
+            raise kernel.HarnessError('the submodule of a bound model is not bound')
+          self.keep.append((bound, hv))
+          P.CTL.reset()
+          res.probe('inner_from_bound_model')
+        if how in ('nested', 'bound_nested'):
+          inner = P.make(dict(style='compact', name=None, body=[dict(i='inner')]), inner=inner, name='wrap')
+          res.probe('inner_below_unbound_container')
       self.mods.append(P.make(p['spec'], inner=inner))
     self.vars = {i: [] for i in range(len(self.progs))}  # prog -> list of variable dicts
     self.memo = {}
@@ -230,7 +251,8 @@ class LWorld:
     return [p['spec']] + ([p['inner']] if p['inner'] else [])
 
   def world_snapshot(self):
-    return (tuple(snap(m) for m in self.mods), tuple(tuple(snap(v) for v in vs) for vs in self.vars.values()))
+    held = tuple((snap(hv), val(b.variables)) for b, hv in self.keep)
+    return (tuple(snap(m) for m in self.mods), tuple(tuple(snap(v) for v in vs) for vs in self.vars.values()), held)
 
   def guarded(self, oi, what, fn, fault_at=None, record=False):
     """Runs one API call with the no-hidden-state oracle (a) around it.  Returns ('ok', result) | ('exc', e)."""
